@@ -137,6 +137,7 @@ func (g *genState) genC10() {
 	}
 	for v := -32768; v <= 32767; v++ {
 		g.emit("i16-exhaustive", "e_i16", strconv.Itoa(v))
+		g.emit("oracle", "rt_i16", strconv.Itoa(v))
 		g.decodeAll("i16-exhaustive", ints, encInt("i16", int64(v)))
 		if v%stride == 0 || v > 32760 || v < -32760 || (v > -130 && v < 130) {
 			g.decodeAll("i16-cross", ints, encInt("i32", int64(v)))
@@ -145,6 +146,7 @@ func (g *genState) genC10() {
 	}
 	for v := 0; v <= 65535; v++ {
 		g.emit("u16-exhaustive", "e_u16", strconv.Itoa(v))
+		g.emit("oracle", "rt_u16", strconv.Itoa(v))
 		g.decodeAll("u16-exhaustive", uints, encUint("u16", uint64(v)))
 		if v%stride == 0 || v > 65520 || v < 260 {
 			g.decodeAll("u16-cross", uints, encUint("u32", uint64(v)))
@@ -179,6 +181,9 @@ func (g *genState) genC10() {
 	}
 	for _, v := range ivals {
 		g.emit("i64", "e_i64", strconv.FormatInt(v, 10))
+		g.emit("oracle", "rt_i64", strconv.FormatInt(v, 10))
+		g.emit("oracle", "rt_i32", strconv.FormatInt(int64(int32(v)), 10))
+		g.emit("oracle", "rt_i16", strconv.FormatInt(int64(int16(v)), 10))
 		g.decodeAll("i64-cross", ints, encInt("i64", v))
 		g.decodeAll("i64-prefixed", ints, append(g.prefix(), encInt("i64", v)...))
 		v32 := int64(int32(v))
@@ -188,6 +193,9 @@ func (g *genState) genC10() {
 	}
 	for _, v := range uvals {
 		g.emit("u64", "e_u64", strconv.FormatUint(v, 10))
+		g.emit("oracle", "rt_u64", strconv.FormatUint(v, 10))
+		g.emit("oracle", "rt_u32", strconv.FormatUint(uint64(uint32(v)), 10))
+		g.emit("oracle", "rt_u16", strconv.FormatUint(uint64(uint16(v)), 10))
 		g.decodeAll("u64-cross", uints, encUint("u64", v))
 		g.decodeAll("u64-prefixed", uints, append(g.prefix(), encUint("u64", v)...))
 		v32 := uint64(uint32(v))
@@ -199,12 +207,14 @@ func (g *genState) genC10() {
 	floats := []string{"f32", "f64"}
 	f32 := func(cat string, bits uint32) {
 		g.emit(cat, "e_f32", strconv.FormatUint(uint64(bits), 10))
+		g.emit("oracle", "rt_f32", strconv.FormatUint(uint64(bits), 10))
 		buf := buffer.New()
 		spec.EncodeFloat32(buf, math.Float32frombits(bits))
 		g.decodeAll(cat, floats, buf.Bytes())
 	}
 	f64 := func(cat string, bits uint64) {
 		g.emit(cat, "e_f64", strconv.FormatUint(bits, 10))
+		g.emit("oracle", "rt_f64", strconv.FormatUint(bits, 10))
 		buf := buffer.New()
 		spec.EncodeFloat64(buf, math.Float64frombits(bits))
 		g.decodeAll(cat, floats, buf.Bytes())
@@ -263,6 +273,7 @@ func (g *genState) genC10() {
 		}
 		for _, op := range []string{"bytes", "str"} {
 			g.emit(op, "e_"+op, hx.Hex(v))
+			g.emit("oracle", "rt_"+op, hx.Hex(v))
 			buf := buffer.New()
 			if op == "bytes" {
 				spec.EncodeBytes(buf, v)
